@@ -50,6 +50,20 @@ def hexbytes(b):
 def crash(exc):
     return 'CRASH:' + type(exc).__name__
 
+HUNG = set()        # codec names on which the real code once failed to return: later calls fail at once (same outcome, no waiting)
+
+def timed(name, fn, seconds=20):
+    """fn() under a wall-clock deadline; a codec that hung once is not waited for again in this run"""
+    k = str(name).lower().replace('_', '-')
+    if k in HUNG:
+        raise common.Hang(f'{name}: did not return earlier in this run')
+    try:
+        with common.deadline(seconds):
+            return fn()
+    except common.Hang:
+        HUNG.add(k)
+        raise
+
 # ------------------------------------------------------------------ independent facts about the environment
 
 _VANILLA = r'''
@@ -90,7 +104,8 @@ def lookup_name(name):
 def dec_outcome(name, data=G.ASCII_REPERTOIRE):
     """outcome of `data.decode(name)`, asked directly: the wire form of `Dec`"""
     try:
-        r = data.decode(name)
+        with common.deadline(20):
+            r = data.decode(name)
     except UnicodeDecodeError:
         return 'U', None
     except LookupError:
@@ -289,6 +304,11 @@ def impl_cmencode(file, text):
 class OutOfScript(BaseException):
     pass
 
+class Runaway(BaseException):
+    """the retry loop of lib/iconv.py called the real iconv more often than any doubling schedule can need"""
+
+MAX_REAL_ROUNDS = 70      # told doubles from n: 70 rounds would mean 2^70 n bytes
+
 class _CtypesProxy:
     """stands for the `ctypes` module inside lib.iconv: records the size of every output buffer allocated"""
     def __init__(self, session):
@@ -342,6 +362,8 @@ class IconvSession:
                 told = outleft._obj.value
                 if inpp is not None:
                     self.note(told)
+                    if len(self.trace) > MAX_REAL_ROUNDS:
+                        raise Runaway()
                     in_before = inleft._obj.value
                 addr = ctypes.cast(outpp[0], ctypes.c_void_p).value
                 rc = real(cd, inpp, inleft, outpp, outleft)
@@ -409,7 +431,12 @@ class IconvSession:
 
 def canon_outcome(fn, show):
     try:
-        r = fn()
+        with common.deadline(30):
+            r = fn()
+    except Runaway:
+        return 'runaway'
+    except common.Hang:
+        return 'hang'
     except UnicodeError as exc:
         if isinstance(exc, (UnicodeDecodeError, UnicodeEncodeError)):
             return f'uerr {exc.start} {exc.end}'
@@ -542,7 +569,8 @@ def impl_unrep(chars, joined, per):
     L._get_characters = lambda code, modifier=None, *, strict=True: list(chars)
     try:
         try:
-            r = make_language().get_unrepresentable_characters(enc)
+            with common.deadline(20):
+                r = make_language().get_unrepresentable_characters(enc)
         except Exception as exc:
             return 'crash'
     finally:
@@ -577,7 +605,7 @@ def language_sections():
 def enc_outcome(text, enc):
     """reference: does `text` encode in `enc` (asked of Python directly)"""
     try:
-        text.encode(enc)
+        timed(enc, lambda: text.encode(enc))
     except UnicodeEncodeError as exc:
         return 'i' if str(exc.reason).startswith('iconv:') else 'e'
     except UnicodeError:
@@ -604,7 +632,7 @@ def impl_check(name, is_template, language):
         ctx.is_template = bool(is_template)
         ctx.language = language
         ctx.encoding = None
-        chk.check_mime(ctx)
+        timed(name, lambda: chk.check_mime(ctx), 30)
     except Exception as exc:
         return 'crash', None
     out = []
@@ -633,7 +661,7 @@ def lenient_encode(text, enc):
     out = b''
     for c in text:
         try:
-            out += c.encode(enc)
+            out += timed(enc, lambda: c.encode(enc), 10)
         except Exception:
             pass
     return out
@@ -647,7 +675,8 @@ LOADER_CONTENTS = [b'', b'abc', b'A' * 300, b'a.b', b'.xn--a', b'x.xn--a b', b'a
 def raw_decode(data, name):
     """what `data.decode(name)` does, asked directly: wire form of RawDecode"""
     try:
-        r = data.decode(name)
+        with common.deadline(20):
+            r = data.decode(name)
     except UnicodeDecodeError as exc:
         return f'D{exc.start:x}.{exc.end:x}'
     except UnicodeError:
@@ -659,7 +688,8 @@ def raw_decode(data, name):
 def impl_loader(data, name):
     E = mods()[0]
     try:
-        r = E.decode(data, name)
+        with common.deadline(20):
+            r = E.decode(data, name)
     except UnicodeDecodeError as exc:
         return f'ude {exc.start} {exc.end}'
     except AttributeError as exc:
@@ -1097,16 +1127,22 @@ def falsify_classification(chk, names, ships):
     chk.coverage.setdefault('falsifier', {})['classification'] = dict(stats)
     return cex
 
+def _guard(fn, name, seconds=20):
+    """a call into a real codec that cannot stall the check: common.Hang (an Exception) after `seconds`"""
+    def run(*a):
+        return timed(name, lambda: fn(*a), seconds)
+    return run
+
 def codec_objects():
     """the extra codecs as reached through bytes.decode/str.encode, plus the tool's own KOI8-T object (shadowed by Python's koi8_t)"""
     E = mods()[0]
     objs = []
     for name in G.EXTRA_CODECS:
-        objs.append((name, name, (lambda b, name=name: b.decode(name)), (lambda s, name=name: s.encode(name))))
+        objs.append((name, name, _guard(lambda b, name=name: b.decode(name), name), _guard(lambda s, name=name: s.encode(name), name)))
     try:
         ci = E._codec_search_function('koi8_t')
         if ci is not None:
-            objs.append(('KOI8-T', "lib.encodings._codec_search_function('koi8_t')", (lambda b, ci=ci: ci.decode(b)[0]), (lambda s, ci=ci: ci.encode(s)[0])))
+            objs.append(('KOI8-T', "lib.encodings._codec_search_function('koi8_t')", _guard(lambda b, ci=ci: ci.decode(b)[0], 'koi8-t-own'), _guard(lambda s, ci=ci: ci.encode(s)[0], 'koi8-t-own')))
     except Exception:
         pass
     return objs
@@ -1141,6 +1177,8 @@ def falsify_codecs(chk, sizes):
                 t = None
                 cex.append({'kind': 'decode-crash', 'key': f'crash:{name}:{type(exc).__name__}', 'codec': label, 'bytes': b.hex(),
                             'observed': f'{type(exc).__name__}: {exc}', 'replay': f'bytes.fromhex({b.hex()!r}).decode({name!r})'})
+                if isinstance(exc, common.Hang):
+                    break               # one non-terminating input is the replay; do not wait for the others
             if t is not None and not isinstance(t, str):
                 cex.append({'kind': 'decode-not-str', 'key': f'type:{name}', 'codec': label, 'bytes': b.hex(), 'observed': repr(t)[:80]})
                 t = None
@@ -1152,10 +1190,12 @@ def falsify_codecs(chk, sizes):
                                 'observed': repr(t), 'iconv': repr(r), 'replay': f'bytes.fromhex({b.hex()!r}).decode({name!r}) vs iconv -f {name} -t UTF-8'})
             if t is not None:
                 repertoire.update(t)
+                hung = False
                 try:
                     back = enc(t)
                 except Exception as exc:
                     back = f'{type(exc).__name__}: {exc}'
+                    hung = isinstance(exc, common.Hang)
                 if back != b:
                     # the recorded class: iconv itself decodes `back` and `b` to the same text (the charset as glibc implements it
                     # is not injective), so no encoder could return both
@@ -1164,6 +1204,10 @@ def falsify_codecs(chk, sizes):
                     cex.append({'kind': 'roundtrip', 'key': key, 'codec': label, 'bytes': b.hex(), 'decoded': t,
                                 'encoded_back': back.hex() if isinstance(back, bytes) else back,
                                 'replay': f'bytes.fromhex({b.hex()!r}).decode({name!r}).encode({name!r})'})
+                if hung:
+                    cex[-1]['kind'] = 'encode-does-not-terminate'
+                    cex[-1]['key'] = f'hang:{name}'
+                    break
                 if cli_budget > 0 and n and rng.random() < 0.02:
                     cli_budget -= 1
                     out, failed = iconv_cli(name, 'UTF-8', b)
@@ -1187,6 +1231,8 @@ def falsify_codecs(chk, sizes):
                 b = None
                 cex.append({'kind': 'encode-crash', 'key': f'crash:{name}:{type(exc).__name__}', 'codec': label, 'text': hexchars(s),
                             'observed': f'{type(exc).__name__}: {exc}', 'replay': f'{s!r}.encode({name!r})'})
+                if isinstance(exc, common.Hang):
+                    break
             if b is not None and not isinstance(b, bytes):
                 cex.append({'kind': 'encode-not-bytes', 'key': f'type:{name}', 'codec': label, 'text': hexchars(s)})
                 continue
@@ -1329,7 +1375,7 @@ def falsify_unrepresentable(chk, charsets, sizes):
             else:
                 expected = [c for c in chars if enc_outcome(c, cs) != 'o']
             try:
-                got = language.get_unrepresentable_characters(cs)
+                got = timed(cs, lambda: language.get_unrepresentable_characters(cs), 30)
             except Exception as exc:
                 got = f'{type(exc).__name__}: {exc}'
             stats['none' if got is None else 'crash' if isinstance(got, str) else 'some' if got else 'empty'] += 1
